@@ -65,7 +65,7 @@ FileHeaps ==
                                      <<"observation", "second", "txt", "another entry">>,
                                      <<"sample", "g1", "txt", "x">>, <<"sample", "g2", "txt", "y">>>>)}
 WideHeaps == {H1(W2x10, "dense", "W2x10"), H1(W2x10, "csc", "W2x10c")}
-JsonHeaps == FileHeaps \cup {H1(F23json, "dense", "F23json")}
+JsonHeaps == FileHeaps \cup {H1(F23json, "dense", "F23json"), H1(F23odd, "csr_unsorted", "F23odd")}
 SumHeaps ==
   {H1(CT34, "dense", "CT34"), H1(CT34, "csr_zeros", "CT34z"), H1(CT23, "csr_unsorted", "CT23u"), H1(CT23, "csc", "CT23c"),
    H1(F23num, "dense", "F23num"), H1(F33dense, "coo", "F33dense"), H1(T33, "csr_zeros", "T33z"), H1(T23, "lil", "T23"),
